@@ -73,6 +73,8 @@ def _call(h, via, arr, name, *args):
 
 
 def run_algebra(h, dom, shape, via):
+    if dom == "int":
+        h.track_int64()
     arr, ms, lead = _matrix(h, dom, shape)
     vals = {}
     for name in list(RATES) + list(ALIASES) + ["p", "n", "top", "ton", "pop", "tp", "fn", "fp", "tn"]:
@@ -108,6 +110,8 @@ def run_algebra(h, dom, shape, via):
                 h.check(f"alias {al}", h.is_nan(va) and h.is_nan(vb))
             else:
                 h.check(f"alias {al}", h.eq(va, vb))
+    if dom == "int":
+        h.check_int64("integer intermediates fit int64 for counts up to 2^40 (NumPy integers wrap silently)", _small(h, ms))
 
 
 def _alpha(h, name):
@@ -116,7 +120,16 @@ def _alpha(h, name):
     return a
 
 
+BIG = 2 ** 40   # "moderate" counts: integer intermediates of the code must stay inside int64 for all cells <= 2^40
+
+
+def _small(h, ms):
+    return h.And([c <= BIG for cs in ms for c in cs])
+
+
 def run_ci(h, dom, ci, shape):
+    if dom == "int":
+        h.track_int64()
     arr, ms, lead = _matrix(h, dom, shape)
     a1, a2 = _alpha(h, "alpha"), _alpha(h, "alpha2")
     h.assume(a1 <= a2)
@@ -144,6 +157,8 @@ def run_ci(h, dom, ci, shape):
         h.check("half-width >= 0 and d^2 = z^2 p(1-p)/n", h.And(h.le(0, d), h.eq(d * d * n, z1 * z1 * p * (1 - p))))
         h.check("nested in alpha", h.And(h.le(lo, lo2), h.le(hi2, hi)))
         h.check("ConfusionMatrix wrapper and alias agree", h.And(h.eq(cc[2 * j], lo), h.eq(cc[2 * j + 1], hi), h.eq(ca[2 * j], lo), h.eq(ca[2 * j + 1], hi)))
+    if dom == "int":
+        h.check_int64("integer intermediates fit int64 for counts up to 2^40 (NumPy integers wrap silently)", _small(h, ms))
 
 
 def run_mirror(h, dom, a, b):
